@@ -1928,3 +1928,30 @@ B('c18-directory-key-lowered', 'C18', 'R18.g', LIGHTSET_PY,
   "                self._lights[light_name] = light", "                self._lights[light_name.lower()] = light")
 N('c18-directory-key-str', 'C18', LIGHTSET_PY,
   "                light_name = light.get_name()\n", "                light_name = str(light.get_name())\n")
+
+# --- round 10: R16.m, R20.r, R08.k
+TOKEN_PY = 'bardolph/parser/token.py'
+_STR_OLD = ("        if self._token_type.has_string():\n            return self._content\n"
+            "        return self._token_type.name.lower()\n")
+B('c16-empty-string-token-prints-class-name', 'C16', 'R16.m', TOKEN_PY,
+  _STR_OLD, "        return self._content or self._token_type.name.lower()\n")
+N('c16-token-str-ifexp', 'C16', TOKEN_PY,
+  _STR_OLD, "        return (self._content if self._token_type.has_string()\n"
+            "                else self._token_type.name.lower())\n")
+B('c20-title-escaped-without-quotes', 'C20', 'R20.r', WEBAPP,
+  "        self.title = html.escape(title)", "        self.title = html.escape(title, quote=False)")
+N('c20-title-escaped-quote-true', 'C20', WEBAPP,
+  "        self.title = html.escape(title)", "        self.title = html.escape(title, quote=True)")
+CLOCK_PY = 'bardolph/lib/clock.py'
+B('c08-no-tick-after-stop', 'C08', 'R08.k', CLOCK_PY,
+  "                time.sleep(sleep_time)\n            self.fire()\n",
+  "                time.sleep(sleep_time)\n            if self._keep_going:\n                self.fire()\n")
+N('c08-no-tick-after-stop-but-stop-fires', 'C08', CLOCK_PY,
+  "                time.sleep(sleep_time)\n            self.fire()\n",
+  "                time.sleep(sleep_time)\n            if self._keep_going:\n                self.fire()\n",
+  CLOCK_PY,
+  "    def stop(self):\n        self._keep_going = False\n",
+  "    def stop(self):\n        self._keep_going = False\n        self.fire()\n")
+N('c08-final-tick-after-loop', 'C08', CLOCK_PY,
+  "                time.sleep(sleep_time)\n            self.fire()\n",
+  "                time.sleep(sleep_time)\n            if self._keep_going:\n                self.fire()\n        self.fire()\n")
